@@ -3,7 +3,9 @@ import json
 import os
 import random
 
-from harness import common, crashdrv, sysdrv, trace
+import re
+
+from harness import common, crashdrv, crashtrace, sysdrv, tlc, trace
 from harness.checks import system as S
 
 PID = "C08"
@@ -38,7 +40,7 @@ def crash_case(args):
     root = os.path.join(S._CTX["work"], f"cr{os.getpid()}")
     build(root, sc)
     evp = os.path.join(root, "events.jsonl")
-    res = {"idx": idx, "scenario": sc, "points": points, "lifetimes": [], "events": [], "problems": []}
+    res = {"idx": idx, "scenario": sc, "points": points, "lifetimes": [], "events": [], "problems": [], "raw": []}
     inp = "infretis.toml"
     clean = True
     for li, pt in enumerate(list(points) + [None]):
@@ -48,6 +50,7 @@ def crash_case(args):
         rc = crashdrv.run_child(crashdrv.lifetime, root, inp, sc["sched_seed"] + li, ip, evp)
         evs = crashdrv.read_events(evp)
         res["lifetimes"].append(rc)
+        res["raw"].append([e for e in evs if e.get("ev") in ("_fx", "_begin", "_disk", "_crash", "_refused")])
         cr = next((e for e in evs if e.get("ev") == "_crash"), None)
         if cr:
             res["last_crash"] = cr
@@ -85,7 +88,102 @@ def crash_case(args):
         if dup:
             res["problems"].append(("rows:duplicate", f"paths {dup} appear more than once in the data file after the restarted run finished"))
     sysdrv.cleanup(root)
+    res["abstract"] = crashtrace.abstract(res.pop("raw"), sc["n"])
     return res
+
+
+_BAD = re.compile(r'<<"BADCLAUSE", (\d+), "(\w+)">>')
+_DONE = re.compile(r'<<"TRACE-CONSUMED", (\d+), (\d+)>>')
+CRASH_CLAUSES = {"T_OrderBegin", "T_OldsLive", "T_OrderStore", "T_OrderDelete", "T_DeleteSafe", "T_OrderRow", "T_OrderTmp", "T_OrderReplace",
+                 "T_Crash", "T_Startable", "T_ActiveFromRestart", "T_NextFromRestart", "T_RowsAfterRestart", "T_RowsNotLive", "T_Refused",
+                 "T_OrderCheck", "T_Rows", "T_Active", "T_Next", "T_RowsOnce", "T_RestartIsMemory", "T_LiveHaveFiles", "T_KnownEvent"}
+CRASH_CONSTS = {"N0": 3, "MaxPn": 7, "MaxCrashes": 2, "MaxSteps": 4, "QueueLen": 1, "Prune": "TRUE", "AtomicRestart": "TRUE"}
+
+
+def crash_cfg(path, consts, invariants):
+    with open(path, "w") as fh:
+        fh.write("SPECIFICATION Spec\nCONSTANTS\n" + "".join(f"  {k} = {v}\n" for k, v in consts.items())
+                 + "".join(f"INVARIANT {i}\n" for i in invariants) + "CHECK_DEADLOCK FALSE\n")
+
+
+def model_check_crash(chk, work, q):
+    """Crash.tla: the protocol as the current tree has it holds for every crash point; each of the three weakenings is refuted."""
+    invs = ["TypeOK", "Startable", "LiveHaveFiles", "RowsOnce", "RestartBehindDisk", "RestartIsLastStep"]
+    big = dict(CRASH_CONSTS) if q else dict(CRASH_CONSTS, MaxPn=8, MaxCrashes=3, MaxSteps=5)
+    runs = [("current", big, None),
+            ("restart-file-rewritten-in-place", dict(CRASH_CONSTS, AtomicRestart="FALSE"), "Startable"),
+            ("rows-kept-at-restart", dict(CRASH_CONSTS, Prune="FALSE"), "RowsOnce"),
+            ("immediate-delete_old", dict(CRASH_CONSTS, QueueLen=0), None)]
+    leads = []
+    for name, consts, expect in runs:
+        cfg = os.path.join(work, f"Crash_{name}.cfg")
+        crash_cfg(cfg, consts, invs)
+        try:
+            res = tlc.run_tlc("Crash", cfg, timeout=3000, allow_violation=True, coverage=(name == "current"))
+        except tlc.TLCError as exc:
+            chk.machinery(f"Crash.tla ({name}): {str(exc)[:600]}")
+            continue
+        chk.add_tlc(res, dict(consts, variant=name))
+        if name == "current":
+            if not res["ok"]:
+                chk.machinery(f"TLC refuted {res['violated']} on Crash.tla with the protocol of the current tree")
+            never = tlc.vacuity(res, ["AnyMove", "StorePart", "StoreDone", "Retire", "Row", "Tmp", "Replace", "CrashClean", "CrashInRow", "CrashInTmp", "Restart"])
+            if never:
+                chk.machinery(f"Crash.tla: actions never taken: {never}")
+        else:
+            if res["ok"]:
+                chk.machinery(f"Crash.tla ({name}): TLC found nothing, the weakened protocol was expected to be refuted")
+            elif expect and expect not in str(res["violated"]):
+                leads.append(f"{name}: refuted {res['violated']} (expected {expect})")
+            else:
+                leads.append(f"{name}: refuted {res['violated']}")
+    chk.cov["layer_I_leads"] = leads
+
+
+def validate_crash_traces(chk, work, results, label_of):
+    """Every crash case as abstract events through TraceCrash.tla (one batch)."""
+    path = os.path.join(work, "crash.ndjson")
+    index = []          # line -> (result idx, event idx)
+    with open(path, "w") as fh:
+        for ri, r in enumerate(results):
+            for ei, ev in enumerate(r.get("abstract", [])):
+                fh.write(json.dumps(crashtrace.normalise(ev)) + "\n")
+                index.append((ri, ei))
+    if not index:
+        return
+    cfg = os.path.join(work, "TraceCrash.cfg")
+    with open(cfg, "w") as fh:
+        fh.write("SPECIFICATION TSpec\nCONSTANTS\n" + "".join(f"  {k} = {v}\n" for k, v in CRASH_CONSTS.items()) + "INVARIANT Report\nCHECK_DEADLOCK FALSE\n")
+    sub = os.path.join(work, "tc")
+    os.makedirs(sub, exist_ok=True)
+    res = tlc.run_tlc("TraceCrash", cfg, workers=1, cwd=sub, env={"TRACE_FILE": path}, coverage=False, timeout=3000, keep_output=True,
+                      allow_violation=True, heap="8g")
+    out = res.get("output", "")
+    done = _DONE.search(out)
+    if not (res["ok"] and done and int(done.group(1)) == len(index)):
+        chk.machinery("TraceCrash did not consume its batch:\n" + "\n".join(out.splitlines()[-15:]))
+        return
+    chk.cov["states"] += int(res.get("distinct") or 0)
+    chk.cov["transitions"] += int(res.get("states") or 0)
+    ntr = sum(1 for r in results if r.get("abstract"))
+    chk.traces(ntr)
+    seen = set()
+    for m in _BAD.finditer(out):
+        line, clause = int(m.group(1)) - 1, m.group(2)
+        if clause not in CRASH_CLAUSES:
+            continue
+        ri, ei = index[line]
+        if (ri, clause) in seen:
+            continue
+        seen.add((ri, clause))
+        r = results[ri]
+        ev = r["abstract"][ei]
+        chk.violation(f"{label_of(r)};outcome:crash-model:{clause};event:{ev['a']}",
+                      f"killed at {label_of(r)}: event {ei} ({ev['a']}) of the recorded effects violates {clause} of TraceCrash.tla: "
+                      f"{json.dumps(ev)[:300]}",
+                      {"property": PID, "binding": "C", "spec": "TraceCrash", "kind": "crash", "scenario": r["scenario"], "points": r["points"],
+                       "clause": clause, "event_index": ei, "abstract": r["abstract"][max(0, ei - 12): ei + 1]})
+    print(f"  TraceCrash: {len(index)} recorded effects of {ntr} crash cases applied to the Crash.tla disk", flush=True)
 
 
 def main(tier, replay=None):
@@ -103,6 +201,7 @@ def main(tier, replay=None):
                       {"n": 5, "workers": 2, "steps": 8, "seed": 2, "sched_seed": 4, "moves": ["sh", "sh", "wf", "wf", "sh"], "cap": 4.25,
                        "delete_old": True, "delete_old_all": True},
                       {"n": 3, "workers": 2, "steps": 6, "seed": 8, "sched_seed": 5}]
+    model_check_crash(chk, S._CTX["work"], q)
     refs = common.pmap(reference, [(s,) for s in scenarios])
     cases = []
     for scn, rc, eff, err in refs:
@@ -131,6 +230,17 @@ def main(tier, replay=None):
     for scn, rc, eff, err in refs:
         effect_of[json.dumps(scn, sort_keys=True)] = eff
     reached = 0
+
+    def label_of(r):
+        eff = effect_of[json.dumps(r["scenario"], sort_keys=True)]
+        k, mode, _hb = r["points"][0]
+        kind, role, _b = eff[k] if k < len(eff) else ("?", "?", 0)
+        lab = f"effect:{kind}:{role};mode:{mode}"
+        if len(r["points"]) > 1:
+            lc = r.get("last_crash")
+            lab += (f"+effect:{lc['effect'][0]}:{lc['effect'][1]};mode:{lc['mode']}" if lc else "+effect:?") + ";double"
+        return lab
+    validate_crash_traces(chk, S._CTX["work"], results, label_of)
     for r in results:
         chk.evaluated(1)
         scn = r["scenario"]
